@@ -510,6 +510,8 @@ def run(ctx):
     # to the right is a tab offset (same line), any other address starts another line (contract shared with C05)
     import props.C05 as C05
     from pycaption.scc.state_machines import _PositioningTracker
+    import props.C15_text as TX
+    TX.prove_text_nodes(ctx)          # (the lines that are measured are what the nodes say)
     ctx.prove("scc._PositioningTracker.update_positioning", C05.tracker_transition, functions=[_PositioningTracker.update_positioning])
     ctx.bounded("streams", "SCC streams in pop-on / roll-up / paint-on mode, explicitly terminated or not, rows of "
                 "0-40 characters; three rows on non-adjacent screen rows (captions sharing a start time) in every "
